@@ -36,7 +36,7 @@ def py_print(v, depth=0):
     if isinstance(v, list):
         return "[\n" + "".join(ind + py_print(x, depth + 1) + ",\n" for x in v) + "    " * depth + "]"
     keys = sorted(v.keys(), key=lambda k: k.encode("utf-8"))
-    return "{\n" + "".join(ind + '"' + k.replace("\n", "\n" + "    " * (depth + 1)) + '": ' + py_print(v[k], depth + 1) + ",\n" for k in keys) + "    " * depth + "}"
+    return "{\n" + "".join(ind + '"' + k.replace("\n", "\n" + "    " * depth) + '": ' + py_print(v[k], depth + 1) + ",\n" for k in keys) + "    " * depth + "}"
 
 
 def lit(v):
@@ -202,6 +202,14 @@ ERROR_ORDER_SCRIPTS = [
 ]
 
 
+FUNC_DIAG_SCRIPTS = [
+    "print(print == 1)\n", "print(print + 1)\n", "print([print] == [1])\n", "f := fn() { return 1; }\nprint(f == f)\n", "print(print === print)\n",
+    "print({\"k\": print} == {\"k\": \"s\"})\n", "print(print->type())\nprint(print.x)\n", "print(print[0])\n", "[a, b] := print\n", "for [k, v] in print {\n}\n",
+    "print($\"${print}\")\n", "print(print)\n", "f := fn(a) { return a; }\nprint(f)\nprint([f, print])\n", "print(print < print)\n", "x := print\nx += 1\n",
+    "o := {\"len\": \"abc\"->len}\nprint(o.len())\n", "o := {\"t\": 7->type}\nprint(o.t(1))\n",
+]
+
+
 # ------------------------------------------------------------------ (ii) determinism under a varied environment
 def run_variant(src, k, base):
     d = Path(tempfile.mkdtemp(prefix="det", dir=str(core.BUILD)))
@@ -225,7 +233,16 @@ def run_variant(src, k, base):
                         "RUST_BACKTRACE": "full"})
             cwd, arg = Path("/"), str(script)
             stdin = None
-        elif k >= 4:
+        elif k == 4:
+            # the script named through a symbolic link to a directory followed by `..`: the file the kernel resolves, not a
+            # textual simplification of the path
+            (d / "lib").mkdir()
+            (d / "work").mkdir()
+            os.symlink("../lib", d / "work" / "lib")
+            (d / "work" / "sub").mkdir()
+            (d / "work" / "sub" / "prog.sd").write_text('print("another file")\n')
+            cwd, arg = d / "work", "lib/../sub/prog.sd"
+        elif k >= 5:
             env.update({f"VAR{k}": "x" * k, "LANG": ["de_DE", "ja_JP.UTF-8", "POSIX", ""][k % 4]})
             arg = ["sub/../sub/prog.sd", "sub//prog.sd", "./sub/./prog.sd", "sub/prog.sd"][k % 4]
             to_file = k % 2 == 0
@@ -257,6 +274,14 @@ def run(ctx, model_ok):
     import concurrent.futures as cf
     # (i)
     cases = value_scripts(ctx) + shared_scripts(ctx)
+    # keys and strings are written raw, whatever they contain (quotes, backslashes, control characters, non-printable
+    # code points): the canonical rendering escapes nothing
+    for s_ in ['say "hi"', "C:\\tmp\\new", "tab\there", "line\nbreak", "\x01\x7f", "nul\x00x", "\u200b\u00ad\u0301", "it's", "a\rb", "{\"k\": 1}", "${x}"]:
+        for v in ({s_: 1}, {s_: s_}, [s_], {"o": {s_: [s_]}}, {s_: {s_: None}}):
+            src = f"print({lit(v)})\n"
+            if "\x01" in s_ or "\x00" in s_ or "\x7f" in s_ or "\t" in s_:
+                src = src.replace("\x01", "\\x01").replace("\x7f", "\\x7f").replace("\x00", "\\x00").replace("\t", "\\x09")
+            cases.append((v, src, py_print(v) + "\n"))
     srcs = [c[1] for c in cases]
     impl, dis = tie.run(ctx, srcs, "values", model_ok)
     bad = []
@@ -316,8 +341,10 @@ def run(ctx, model_ok):
     ctx.sample({"stream": "values", "src": cases[k][1][:500], "impl_stdout": impl[k]["stdout"][:300]})
     # (ii)
     nprog = 5000 if ctx.tier == "thorough" else 150
-    reps = 8 if ctx.tier == "thorough" else 4
+    reps = 9 if ctx.tier == "thorough" else 5
     ps = progs.generate(ctx.rng, nprog, fail_rate=0.4)
+    import props.C02 as C02
+    ps = C02.typefn_scripts() + FUNC_DIAG_SCRIPTS + ps      # diagnostics raised on and about function values (no addresses, no ids)
     ps = ERROR_ORDER_SCRIPTS * 3 + ps        # repeated: hash seeds differ per process, more runs make an order flip likely to show
     jobs = [(i, k) for i in range(len(ps)) for k in range(reps)]
     with cf.ThreadPoolExecutor(max_workers=core.NPROC) as ex:
